@@ -27,7 +27,8 @@ DT = ["int", "float", "complex", "bool", "str"]
 ATTRS = [None, {"n": None}, {"t": True, "f": False},
          {"i": 3, "x": 2.5, "s": "text"},
          {"zero": 0, "one": 1, "fone": 1.0, "fzero": 0.0, "t": True}]
-NAMES = ["x", "x.h5", "x.dmp", os.path.join("dir.v2", "x"), "x_g0.5"]
+NAMES = ["x", "x.h5", "x.dmp", os.path.join("dir.v2", "x"), "x_g0.5",
+         "x[1]"]
 
 
 def cases(tier, seed):
@@ -428,6 +429,12 @@ def check_case(case):
             why = same(h2.full_ds, orig, eng)
             if why:
                 vio.append((key("new-session"), "a new session loads: %s" % why))
+            # (another dataset whose name begins like this one lies next to
+            # it: deleting is about the named file only)
+            l0 = listing()
+            xyz.save_ds(xr.Dataset({"other": (("q",), [7.0, 8.0])}),
+                        name + "_long", engine=eng)
+            decoy.extend(x for x in listing() if x not in l0)
             if core.pick([case["name"], case["sizes"], case["vdt"], "del"], 2):
                 # (deleted by yet another session that never loaded it)
                 xyz.Harvester(xyz.Runner(f, var_names="out"), data_name=name,
@@ -436,6 +443,10 @@ def check_case(case):
                 h2.delete_ds()
             if listing():
                 vio.append((key("delete"), "delete_ds left %r" % listing()))
+            gone = [x for x in decoy if x not in os.listdir(dname)]
+            if gone:
+                vio.append((key("delete-other"), "delete_ds of %r also "
+                            "removed %r" % (case["name"], gone)))
     except core.HarnessError:
         raise
     except Exception as e:
